@@ -453,7 +453,11 @@ func ruleR15p(c *Ctx, r *Report) {
 	}
 	key := "repeat-is-served@" + fnKey(fn)
 	n, bad := 0, ""
-	for _, g := range withAnon(fn) {
+	cands := withAnon(fn)
+	if op := readOpenerOf(fn); op != nil && op.Parent() == nil {
+		cands = append(cands, op)
+	}
+	for _, g := range cands {
 		if g == fn {
 			continue
 		}
@@ -978,4 +982,206 @@ func ruleR11y(c *Ctx, r *Report) {
 		return
 	}
 	r.Check(bad == "", key, c.Pos(fn.Pos()), "one group, and one bucket, per digest width", bad+": a bucket of the result is addressed by the record width alone; groups that share a width (two hash functions with digests of one length) overwrite each other's bucket, and records vanish depending on map order")
+}
+
+// ---- R08s: a struct of the pinned library gets no new field that is written ----------------------
+
+func ruleR08s(c *Ctx, r *Report) {
+	n := 0
+	var bad []string
+	for _, pp := range libPkgs {
+		p := c.Pkgs[pp]
+		if p == nil {
+			continue
+		}
+		sc := p.Types.Scope()
+		for _, name := range sc.Names() {
+			tn, ok := sc.Lookup(name).(*types.TypeName)
+			if !ok || tn.IsAlias() {
+				continue
+			}
+			st, ok := tn.Type().Underlying().(*types.Struct)
+			if !ok {
+				continue
+			}
+			pinned := name
+			if !baselineTypes[pp+"\t"+name] {
+				// a renamed pinned type keeps its pinned field list
+				pinned = ""
+				for k, v := range typeRenames {
+					if v == name && strings.HasPrefix(k, pp+"\t") {
+						pinned = strings.TrimPrefix(k, pp+"\t")
+					}
+				}
+				if pinned == "" {
+					continue // a type the pinned tree does not have
+				}
+			}
+			n++
+			for i := 0; i < st.NumFields(); i++ {
+				fv := st.Field(i)
+				if baselineTypes[pp+"\tfield:"+pinned+"."+fv.Name()] || fv.Name() == "_" {
+					continue
+				}
+				// written anywhere?
+				where := ""
+				for _, fn := range c.RepoFuncs() {
+					for _, g := range withAnon(fn) {
+						eachInstr(g, func(in ssa.Instruction) {
+							if where != "" {
+								return
+							}
+							switch x := in.(type) {
+							case *ssa.Store:
+								if addrThroughField(x.Addr, fv) {
+									if k, isK := x.Val.(*ssa.Const); isK && (k.Value == nil) {
+										return // zeroing
+									}
+									if freshStructCell(x.Addr) {
+										// set where the value is constructed (composite literal, or an
+										// assignment to the new object in the function that allocates it):
+										// a set-once field is a named local, not state carried between calls
+										return
+									}
+									where = c.Pos(x.Pos())
+								}
+							case *ssa.MapUpdate:
+								if f2, _ := fieldOfLoad(canon(x.Map)); f2 == fv {
+									where = c.Pos(x.Pos())
+								}
+							case ssa.CallInstruction:
+								// a method called on the field's address (a mutex, a WaitGroup, a set)
+								cc := x.Common()
+								if len(cc.Args) > 0 {
+									if fa, ok := cc.Args[0].(*ssa.FieldAddr); ok && fieldVar(fa.X.Type(), fa.Field) == fv {
+										where = c.Pos(x.Pos())
+									}
+								}
+							}
+						})
+					}
+				}
+				if where != "" {
+					bad = append(bad, fmt.Sprintf("%s.%s has a field %s that the pinned tree does not have, written at %s", shortPkg(pp), name, fv.Name(), where))
+				}
+			}
+		}
+	}
+	sort.Strings(bad)
+	r.Count("struct types of the pinned library examined for new fields", n)
+	if n < 30 {
+		r.Undec("no-new-written-field@library", "-", fmt.Sprintf("only %d struct types examined", n))
+		return
+	}
+	r.Check(len(bad) == 0, "no-new-written-field@library", "-", "no struct of the pinned library has a new field that is written", strings.Join(bad, "; ")+": state a store, reader or writer carries from one call to the next beyond what the pinned tree carries (a remembered result, a sticky error, a cache, a flag set in one session and lost in the next) is what makes an answer depend on history")
+}
+
+// addrThroughField: the address is field fv of some struct, or an element / sub-field reached through it.
+// freshStructCell: the address is a field (of a field ...) of an object allocated in this very
+// function, reached without going through any pointer.
+func freshStructCell(a ssa.Value) bool {
+	for i := 0; i < 8; i++ {
+		switch x := a.(type) {
+		case *ssa.FieldAddr:
+			a = x.X
+		case *ssa.Alloc:
+			_, isStruct := derefType(x.Type()).Underlying().(*types.Struct)
+			return isStruct
+		default:
+			return false
+		}
+	}
+	return false
+}
+
+func addrThroughField(a ssa.Value, fv *types.Var) bool {
+	for i := 0; i < 8; i++ {
+		switch x := a.(type) {
+		case *ssa.FieldAddr:
+			if fieldVar(x.X.Type(), x.Field) == fv {
+				return true
+			}
+			a = x.X
+		case *ssa.IndexAddr:
+			a = x.X
+		case *ssa.UnOp:
+			if x.Op != token.MUL {
+				return false
+			}
+			a = x.X
+		default:
+			return false
+		}
+	}
+	return false
+}
+
+// ---- R02q: who may issue a single Read -----------------------------------------------------------
+
+// bareReadCallers: functions of the pinned library that call a Read([]byte) (int, error) themselves —
+// the reader adapters, whose Read forwards one Read, and the two places that loop over Read. Every
+// other function fills its buffers through io.ReadFull / io.Copy / binary.Read.
+var bareReadCallers = map[string]bool{
+	"v2/internal/io.discardingReadSeekerPlusByte.Read": true, // forwards one Read and counts what it delivered
+	"v2/internal/io.offsetReadSeeker.ReadByte":         true, // one byte through its own ReadAt-backed Read
+	"v2/internal/io.readSeekerAt.ReadAt":               true, // seek + one Read, returns the count
+	"v2/internal/loader.countingReader.Read":           true, // forwards one Read and counts
+	"v2/internal/loader.writingReader.Read":            true, // forwards the buffered block
+}
+
+func bareReadSites(c *Ctx) map[string]string {
+	out := map[string]string{}
+	for _, fn := range c.RepoFuncs() {
+		if !inLib(fn) {
+			continue
+		}
+		eachInstr(fn, func(in ssa.Instruction) {
+			ci, ok := in.(*ssa.Call)
+			if !ok {
+				return
+			}
+			name := ""
+			if ci.Common().IsInvoke() {
+				name = ci.Common().Method.Name()
+			} else if f := calleeFunc(ci.Common()); f != nil {
+				name = f.Name()
+			}
+			sig := ci.Common().Signature()
+			if name != "Read" || sig == nil || sig.Params().Len() != 1 || sig.Results().Len() != 2 {
+				return
+			}
+			if sl, ok := sig.Params().At(0).Type().Underlying().(*types.Slice); !ok || !types.Identical(sl.Elem(), types.Typ[types.Byte]) {
+				return
+			}
+			out[fnKey(rootFuncOf(fn))] = c.Pos(ci.Pos())
+		})
+	}
+	return out
+}
+
+func ruleR02q(c *Ctx, r *Report) {
+	got := bareReadSites(c)
+	var keys []string
+	for k := range got {
+		keys = append(keys, k)
+	}
+	sort.Strings(keys)
+	newFns := newFuncKeys(c)
+	for _, k := range keys {
+		key := "single-read@" + k
+		if bareReadCallers[k] {
+			r.Exempt(key, got[k], "forwards or loops over Read in the pinned tree")
+			continue
+		}
+		if newFns[k] {
+			// a method of a type the pinned tree does not have is judged by R16n (new reader types)
+			r.Exempt(key, got[k], "function the pinned tree does not have (its type is judged by the rule on new reader types)")
+			continue
+		}
+		r.Viol(key, got[k], "a buffer is filled with one Read: an io.Reader may deliver fewer bytes than asked for without an error (a pipe, a socket, any reader that hands out pieces), and the rest of the buffer is then decoded as zeros or the short read mistaken for the end — fixed-size fields and section bodies are read with io.ReadFull")
+	}
+	r.Count("functions that call Read themselves", len(keys))
+	if len(keys) < 3 {
+		r.Undec("single-read-sites@library", "-", fmt.Sprintf("only %d functions calling Read found", len(keys)))
+	}
 }
